@@ -47,6 +47,8 @@ let rec parse_node (toks : string list) : node * string list =
        let (c, r) = parse_node rest in
        if t.[0] = 'K' then (NString (bytes_of_str key), r)
        else (match lookup_by_string c (bytes_of_str key) with
+           | Ok (NMap (t, _)) -> (NFMap t, r)     (* a container of that engine, not a basicnode one *)
+           | Ok (NList x) -> (NFList x, r)
            | Ok v -> (v, r)
            | Err _ -> failwith "parse_node: F: no such key")
      | 'n' -> (NNull, rest)
